@@ -108,6 +108,7 @@ TextKept(e) ==
   /\ \A i \in 1..Len(e.out.cm_atoms) : e.out.cm_atoms[i] = DeclaredText(e.atoms)
   /\ \A i \in 1..Len(e.out.meta_atoms) : e.out.meta_atoms[i][2] = DeclaredText(e.atoms)
 
+NullCompletion(x) == x.cm = "@completion" /\ \A t \in 1..Len(x.v) : x.v[t] = 0
 C05Clauses(e) ==
   LET In0 == FromObs(e.input, e.q)
       declared == NonAux(In0)
@@ -118,7 +119,11 @@ C05Clauses(e) ==
       compl == SeqOfSet(Completion(In0, "EAMBIENTE")) \o SeqOfSet(Completion(In0, "TERMOSOLAR"))
   IN (IF lost = <<>> THEN {} ELSE {"declared_line_lost_or_altered"})
      \cup (IF BagClose(added, compl, e.q, 1) THEN {} ELSE {"completion_not_max0_use_minus_declared"})
-     \cup (IF e.out.renorm.ok /\ BagClose(e.out.renorm.data, FromObs(e.out.data, e.q), e.q, 1) THEN {} ELSE {"normalize_not_idempotent"})
+     \* (up to rounding: a further generated production whose every value rounds to zero at the logging unit - the f32
+     \* residue use - (declared + completion), some 1e-9 kWh - is nothing)
+     \cup (IF e.out.renorm.ok /\ BagClose(SelectSeq(e.out.renorm.data, LAMBDA x : ~NullCompletion(x)),
+                                          FromObs(SelectSeq(e.out.data, LAMBDA x : ~NullCompletion(x)), e.q), e.q, 1)
+           THEN {} ELSE {"normalize_not_idempotent"})
      \cup (IF \A i \in 1..(Len(e.out.data) - 1) : e.out.data[i].id <= e.out.data[i + 1].id THEN {} ELSE {"not_sorted_by_id"})
      \cup (IF "input_needs" \in DOMAIN e /\ ~DemandsKept(e) THEN {"declared_demand_lost_or_altered"} ELSE {})
      \cup (IF "cm_atoms" \in DOMAIN e.out /\ ~TextKept(e) THEN {"declared_comment_or_metadata_altered"} ELSE {})
